@@ -6,7 +6,7 @@ import time
 from . import common as C
 
 NPAIRS = 22
-QUICK = [0, 1, 2, 3, 4, 5, 7, 8, 9, 10, 11, 12, 13, 14, 15, 21]
+QUICK = [0, 1, 2, 3, 4, 5, 6, 7, 8, 9, 10, 11, 12, 13, 14, 15, 16, 21]
 
 ASSUMPTIONS = [
     "source items take the values {2, 3, 200, 77} (mapped into the source type); lengths 0..3",
@@ -17,6 +17,12 @@ ASSUMPTIONS = [
 
 def run_check(prop, tier):
     t0 = time.time()
+    cov, violations, internal = matrix(prop, tier)
+    return C.finish(prop, tier, "model_checking", cov, violations, ASSUMPTIONS, t0, internal)
+
+
+def matrix(prop, tier, only_monitor=None):
+    """runs the whole source-form matrix; only_monitor restricts the reported violations (C02 takes the ASan reports)"""
     pairs = QUICK if tier == "quick" else list(range(NPAIRS))
     jobs = [("emplace.cpp", ["CFG_PAIR=%d" % k], "emp_%d" % k) for k in pairs]
     builds = C.build_many(jobs)
@@ -54,10 +60,12 @@ def run_check(prop, tier):
                 if len(cov["samples"]) < 10:
                     cov["samples"].append(s)
             for v in d["violations"]:
+                if only_monitor and not v["discr"].startswith(only_monitor + "|"):
+                    continue
                 sig = "%s|%s|%s" % (prop, d["pair"].replace(" ", ""), v["discr"])
                 violations.append({"sig": sig, "msg": "%s (%d cells)" % (v["msg"], v["count"]),
                                    "payload": {"engine": "emplace.cpp", "pair": d["pair"], "message": v["msg"], "occurrences": v["count"]}})
     cov["rule"] = ("full matrix stored type x source type x source form x length x {FixedSize, VaryingSize}; every cell is a distinct "
                    "input shape; states/transitions = cells (one vector built and one emplace_back per cell), traces = objects stored "
                    "and compared with T(source item)")
-    return C.finish(prop, tier, "model_checking", cov, violations, ASSUMPTIONS, t0, internal)
+    return cov, violations, internal
